@@ -349,7 +349,13 @@ def oracle(ctx, volume=1):
         for r in range(1, k):
             for idxs in itertools.combinations(range(k), r):
                 keep = [i for i in range(k) if i not in idxs]
-                marg = d.marginalize(list(idxs))
+                try:
+                    marg = d.marginalize(list(idxs))
+                except Exception as e:  # noqa
+                    ctx.violate("C16/marginalize/raises-after-earlier-calls", f"{type(e).__name__}: {e} (marginal over {idxs} of shape {sh}, "
+                                "after earlier marginalize / conditionalize calls on the same object)",
+                                {"kind": "sequence", "shape": sh, "ps": p.tolist(), "idx": list(idxs)})
+                    continue
                 for vals in itertools.product(*[range(sh[i]) for i in idxs]):
                     rep = {"kind": "cond", "shape": sh, "ps": p.tolist(), "idx": list(idxs), "val": list(vals)}
                     try:
@@ -358,10 +364,15 @@ def oracle(ctx, volume=1):
                         ctx.violate("C16/getitem/raises", f"marginal{tuple(marg.shape)}[{vals}] raises {type(e).__name__}", rep); continue
                     if pm <= 1e-6:
                         continue
+                    before = np.array(d.ps, copy=True)
                     try:
                         c = d.conditionalize(list(idxs), list(vals))
                     except Exception as e:  # noqa
                         ctx.violate("C16/conditionalize/raises", f"{type(e).__name__}: {e}", rep); continue
+                    if not np.array_equal(np.asarray(d.ps), before):
+                        ctx.violate("C16/conditionalize/operand-changed", f"conditionalize({idxs}, {vals}) changed the distribution it was called on "
+                                    f"(shape {sh})", rep)
+                        d = MultinomialDistribution(p.copy(), tuple(sh))
                     sl = [slice(None)] * k
                     for i, v in zip(idxs, vals):
                         sl[i] = v
